@@ -37,6 +37,9 @@
        "caller"  as the pinned code reads: get_running_loop() in the CALLER's thread decides, a
                  thread without a running loop is told to cancel directly (a foreign thread that
                  runs ANOTHER event loop - scenario variable `own` - is told to marshal)
+       "spent"   dispose() of a thread-safe relative schedule, called while the loop is not running, cancels only
+                 the first handle of the list (negative control of NoStartAfterDisposeReturned in the scenarios
+                 where the loop has run, stopped, and is run again)
        "impatient"  the marshalled dispose() waits for the loop with a timeout and swallows it (negative
                  control of NoStartAfterDisposeReturned in the scenarios with a BUSY loop)
        "early" / "lose" / "nowake" / "inline"   single faults used as negative controls of NotEarly,
@@ -79,7 +82,7 @@ VARIABLES loopTh,   \* monitor: thread running the loop now, or NoTh
           timers,   \* mechanism: loop._scheduled (set of handle ids)
           hl,       \* mechanism: item -> the closure's handle list
           fut,      \* mechanism: item -> "none" | "wait" | "set"   (the future a marshalled dispose blocks on)
-          lp,       \* mechanism: loop thread control [pc, h, todo]
+          lp,       \* mechanism: loop thread control [pc, h, todo, stop]  (stop = loop.stop() was called: _stopping)
           q,        \* mechanism: thread -> remaining ops (F: its script; L: ops of the running callback)
           ex,       \* mechanism: thread -> the scheduler call in progress [op, i, step, tmp]
           fwake,    \* mechanism: thread -> it sleeps until the clock reaches this (the loop thread: inside a callback)
@@ -87,11 +90,13 @@ VARIABLES loopTh,   \* monitor: thread running the loop now, or NoTh
           idled,    \* mechanism: 0 = nothing reported since the last iteration, 1 = idle reported, 2 = asleep-with-work reported
           woken,    \* mechanism: the self-pipe has data (_write_to_self was called since select() last returned)
           own,      \* scenario: the foreign threads that have a running event loop of their own (another loop)
-          busy      \* scenario: the loop's first callback (the driver) begins by sleeping that long on the clock (0 = not)
+          busy,     \* scenario: the loop's first callback (the driver) begins by sleeping that long on the clock (0 = not)
+          pause     \* scenario: at that clock reading a loop callback calls loop.stop() (0 = never); thread F disposes the
+                    \*           "stp" items while the loop is stopped-after-running and then runs it again
 
 mon  == <<loopTh, gen, now, it, lost>>
-mech == <<variant, scn, hs, ready, timers, hl, fut, lp, q, ex, fwake, go, idled, woken, own, busy>>
-vars == <<loopTh, gen, now, it, lost, variant, scn, hs, ready, timers, hl, fut, lp, q, ex, fwake, go, idled, woken, own, busy>>
+mech == <<variant, scn, hs, ready, timers, hl, fut, lp, q, ex, fwake, go, idled, woken, own, busy, pause>>
+vars == <<loopTh, gen, now, it, lost, variant, scn, hs, ready, timers, hl, fut, lp, q, ex, fwake, go, idled, woken, own, busy, pause>>
 
 (* ======================================= MONITOR ======================================== *)
 NewItem == [ss |-> "new", k |-> "-", due |-> 0, ds |-> "none", dm |-> "-", dg |-> 0, cov |-> FALSE,
@@ -173,13 +178,19 @@ TsCombos  == AioCombos \cup {<<"pre", f>> : f \in Foreign} \cup {<<"L", f>> : f 
                        \cup {<<f, "none">> : f \in Foreign} \cup {<<f, "L">> : f \in Foreign}
                        \cup (Foreign \X Foreign)
 
+\* ... disposed by thread F while the loop is STOPPED after having run (it is run again afterwards)
+AioStp == {<<"pre", "stp">>, <<LT, "stp">>}
+TsStp  == AioStp \cup {<<f, "stp">> : f \in Foreign}
+PauseAt == 1
+PauseOf(s) == IF \E i \in Items : s[i].dw = "stp" THEN PauseAt ELSE 0
+
 Min(S) == CHOOSE x \in S : \A y \in S : x <= y
 
 \* item scenarios over scheduler kinds K, delays D, waits W and pairs C
 ItemScn(K, D, W, C) ==
-    { s \in [k : K, d : D, sw : {"pre", LT} \cup Foreign, dw : {"none", "pre", LT} \cup Foreign, w : W] :
+    { s \in [k : K, d : D, sw : {"pre", LT} \cup Foreign, dw : {"none", "pre", "stp", LT} \cup Foreign, w : W] :
         /\ <<s.sw, s.dw>> \in C
-        /\ <<s.sw, s.dw>> \in (IF s.k = "aio" THEN AioCombos ELSE TsCombos)
+        /\ <<s.sw, s.dw>> \in (IF s.k = "aio" THEN AioCombos \cup AioStp ELSE TsCombos \cup TsStp)
         /\ (s.dw = "none" => s.w = Min(W)) }
 Absent == [k |-> "ts", d |-> 0, sw |-> "no", dw |-> "none", w |-> 0]
 
@@ -204,8 +215,13 @@ DrvOps(s, i) == IF s[i].sw # LT THEN <<>>
                 ELSE <<Op("sched", i, 0)>> \o (IF s[i].dw = LT THEN <<Op("post", i, s[i].w)>> ELSE <<>>)
 
 \* ("up": F goes on only once the loop runs - a dispose() that races the START of the loop is outside the statement)
+StpOps(s, i) == IF s[i].dw = "stp" THEN <<Op("sleep", i, s[i].w), Op("disp", i, 0)>> ELSE <<>>
+\* ("down": F waits until the loop has stopped; it disposes the "stp" items and runs the loop again)
 Script(s, th) == IF th = FT
                  THEN CatUpTo([i \in Items |-> PreOps(s, i)], N) \o <<Op("go", 0, 0), Op("up", 0, 0)>> \o CatUpTo([i \in Items |-> RunOps(s, i, th)], N)
+                      \o (IF PauseOf(s) > 0
+                          THEN <<Op("down", 0, 0)>> \o CatUpTo([i \in Items |-> StpOps(s, i)], N) \o <<Op("go", 0, 0), Op("up", 0, 0)>>
+                          ELSE <<>>)
                  ELSE CatUpTo([i \in Items |-> RunOps(s, i, th)], N)
 \* the driver callback: optionally a long sleep first (the loop thread is BUSY: handles queue up behind it)
 LScript(s, b) == (IF b > 0 THEN <<Op("sleep", 0, b)>> ELSE <<>>) \o CatUpTo([i \in Items |-> DrvOps(s, i)], N)
@@ -216,13 +232,15 @@ H(k, i, when) == [k |-> k, i |-> i, when |-> when, c |-> FALSE]
 TsRel(i) == scn[i].k = "ts" /\ scn[i].d > 0
 
 MechInitFor(v, s, o, b) ==
-            /\ variant = v /\ scn = s /\ own = o /\ busy = b
-            /\ hs = IF LScript(s, b) = <<>> THEN <<>> ELSE <<H("drv", 0, 0)>>      \* loop.call_soon(driver) before the start
-            /\ ready = IF LScript(s, b) = <<>> THEN <<>> ELSE <<1>>
-            /\ timers = {}
+            /\ variant = v /\ scn = s /\ own = o /\ busy = b /\ pause = PauseOf(s)
+            /\ LET drv == IF LScript(s, b) = <<>> THEN <<>> ELSE <<H("drv", 0, 0)>>        \* loop.call_soon(driver) before the start
+                   stp == IF PauseOf(s) = 0 THEN <<>> ELSE <<H("stp", 0, PauseOf(s))>>      \* loop.call_at(pause, loop.stop)
+               IN /\ hs = drv \o stp
+                  /\ ready = IF drv = <<>> THEN <<>> ELSE <<1>>
+                  /\ timers = IF stp = <<>> THEN {} ELSE {Len(drv) + 1}
             /\ hl = [i \in Items |-> <<>>]
             /\ fut = [i \in Items |-> "none"]
-            /\ lp = [pc |-> "off", h |-> 0, todo |-> 0]
+            /\ lp = [pc |-> "off", h |-> 0, todo |-> 0, stop |-> FALSE]
             /\ q = [t \in Threads |-> IF t = LT THEN <<>> ELSE Script(s, t)]
             /\ ex = [t \in Threads |-> NoOp]
             /\ fwake = [t \in Threads |-> 0] /\ go = FALSE /\ idled = 0 /\ woken = FALSE
@@ -248,8 +266,9 @@ NextOp(th) ==
             [] o.op = "sleep" -> fwake' = [fwake EXCEPT ![th] = now + o.w] /\ UNCHANGED <<ex, go>>
             [] o.op = "await" -> it[o.i].ss = "ret" /\ UNCHANGED <<ex, fwake, go>>       \* blocks until the item was scheduled
             [] o.op = "up"    -> loopTh # NoTh /\ UNCHANGED <<ex, fwake, go>>            \* blocks until the loop runs
+            [] o.op = "down"  -> lp.pc = "off" /\ gen >= 2 /\ UNCHANGED <<ex, fwake, go>>  \* blocks until the loop has run and stopped
             [] OTHER          -> SetEx(th, [op |-> o.op, i |-> o.i, step |-> 0, tmp |-> o.w]) /\ UNCHANGED <<fwake, go>>
-    /\ UNCHANGED <<mon, variant, scn, hs, ready, timers, hl, fut, lp, idled, woken, own, busy>>
+    /\ UNCHANGED <<mon, variant, scn, hs, ready, timers, hl, fut, lp, idled, woken, own, busy, pause>>
 
 (* ---- schedule / schedule_relative ------------------------------------------------------------- *)
 SchedCall(th) ==
@@ -257,13 +276,13 @@ SchedCall(th) ==
     /\ LET i == ex[th].i IN
        /\ MSchedCall(i, th, scn[i].k, scn[i].d, now)
        /\ StepTo(th, IF variant = "inline" /\ scn[i].d = 0 /\ th # LT THEN 5 ELSE 1)
-    /\ UNCHANGED <<variant, scn, hs, ready, timers, hl, fut, lp, q, fwake, go, idled, woken, own, busy>>
+    /\ UNCHANGED <<variant, scn, hs, ready, timers, hl, fut, lp, q, fwake, go, idled, woken, own, busy, pause>>
 
 \* fault "inline": an immediate schedule from a foreign thread runs the action on the caller
 SchedInline(th) ==
     /\ MayRun(th) /\ ex[th].op = "sched" /\ ex[th].step = 5
     /\ MStart(ex[th].i, th, now) /\ StepTo(th, 3)
-    /\ UNCHANGED <<variant, scn, hs, ready, timers, hl, fut, lp, q, fwake, go, idled, woken, own, busy>>
+    /\ UNCHANGED <<variant, scn, hs, ready, timers, hl, fut, lp, q, fwake, go, idled, woken, own, busy, pause>>
 
 \* call_soon / call_soon_threadsafe / call_later: the handle exists and is queued.
 \* call_soon_threadsafe = append to the ready queue, THEN wake the selector (_write_to_self) - two steps: the loop
@@ -280,7 +299,7 @@ SchedEnqueue(th) ==
          [] OTHER ->                \* AsyncIOScheduler.schedule_relative: call_later on the caller's thread
               /\ hs' = Append(hs, H("iv", i, now + d)) /\ timers' = timers \cup {NextH}
               /\ hl' = [hl EXCEPT ![i] = <<NextH>>] /\ StepTo(th, 3) /\ UNCHANGED ready
-    /\ UNCHANGED <<mon, variant, scn, fut, lp, q, fwake, go, idled, woken, own, busy>>
+    /\ UNCHANGED <<mon, variant, scn, fut, lp, q, fwake, go, idled, woken, own, busy, pause>>
 
 \* the second half of call_soon_threadsafe: _write_to_self()
 Wake(th) ==
@@ -292,18 +311,18 @@ Wake(th) ==
     /\ CASE ex[th].op = "sched" -> StepTo(th, IF ex[th].step = 6 THEN 2 ELSE 3)
          [] ex[th].op = "disp"  -> ex' = [ex EXCEPT ![th].step = 11, ![th].tmp = now + 1]
          [] OTHER               -> SetEx(th, NoOp)
-    /\ UNCHANGED <<mon, variant, scn, hs, ready, timers, hl, fut, lp, q, fwake, go, idled, own, busy>>
+    /\ UNCHANGED <<mon, variant, scn, hs, ready, timers, hl, fut, lp, q, fwake, go, idled, own, busy, pause>>
 
 \* stage 1, second half: handle.append(...)
 SchedAssign(th) ==
     /\ MayRun(th) /\ ex[th].op = "sched" /\ ex[th].step = 2
     /\ hl' = [hl EXCEPT ![ex[th].i] = Append(@, ex[th].tmp)] /\ StepTo(th, 3)
-    /\ UNCHANGED <<mon, variant, scn, hs, ready, timers, fut, lp, q, fwake, go, idled, woken, own, busy>>
+    /\ UNCHANGED <<mon, variant, scn, hs, ready, timers, fut, lp, q, fwake, go, idled, woken, own, busy, pause>>
 
 SchedRet(th) ==
     /\ MayRun(th) /\ ex[th].op = "sched" /\ ex[th].step = 3
     /\ MSchedRet(ex[th].i, now) /\ SetEx(th, NoOp)
-    /\ UNCHANGED <<variant, scn, hs, ready, timers, hl, fut, lp, q, fwake, go, idled, woken, own, busy>>
+    /\ UNCHANGED <<variant, scn, hs, ready, timers, hl, fut, lp, q, fwake, go, idled, woken, own, busy, pause>>
 
 (* ---- dispose -------------------------------------------------------------------------------- *)
 Direct(i, th) == \/ scn[i].k = "aio"                         \* AsyncIOScheduler: handle.cancel() wherever it is called
@@ -315,8 +334,16 @@ Direct(i, th) == \/ scn[i].k = "aio"                         \* AsyncIOScheduler
 DispCall(th) ==
     /\ MayRun(th) /\ ex[th].op = "disp" /\ ex[th].step = 0
     /\ MDispCall(ex[th].i, th, now)
-    /\ StepTo(th, IF Direct(ex[th].i, th) THEN 1 ELSE 10)
-    /\ UNCHANGED <<variant, scn, hs, ready, timers, hl, fut, lp, q, fwake, go, idled, woken, own, busy>>
+    /\ StepTo(th, CASE variant = "spent" /\ TsRel(ex[th].i) /\ loopTh = NoTh -> 20
+                     [] Direct(ex[th].i, th) -> 1
+                     [] OTHER -> 10)
+    /\ UNCHANGED <<variant, scn, hs, ready, timers, hl, fut, lp, q, fwake, go, idled, woken, own, busy, pause>>
+
+\* fault "spent": "the loop is not running" is taken for "the loop has never run" - only handle[0] is cancelled
+CancelFirstOnly(th) ==
+    /\ MayRun(th) /\ ex[th].op = "disp" /\ ex[th].step = 20
+    /\ hs' = [hs EXCEPT ![hl[ex[th].i][1]].c = TRUE] /\ StepTo(th, 9)
+    /\ UNCHANGED <<mon, variant, scn, ready, timers, hl, fut, lp, q, fwake, go, idled, woken, own, busy, pause>>
 
 \* handle.pop() (IndexError is swallowed: the rest of do_cancel_handles is skipped)
 CancelPop(th) ==
@@ -325,27 +352,27 @@ CancelPop(th) ==
        IF hl[i] = <<>> THEN StepTo(th, 9) /\ UNCHANGED hl
        ELSE /\ hl' = [hl EXCEPT ![i] = Front(@)]
             /\ ex' = [ex EXCEPT ![th].step = @ + 1, ![th].tmp = Last(hl[i])]
-    /\ UNCHANGED <<mon, variant, scn, hs, ready, timers, fut, lp, q, fwake, go, idled, woken, own, busy>>
+    /\ UNCHANGED <<mon, variant, scn, hs, ready, timers, fut, lp, q, fwake, go, idled, woken, own, busy, pause>>
 
 \* .cancel()
 CancelSet(th) ==
     /\ MayRun(th) /\ ex[th].op \in {"disp", "cxl"} /\ ex[th].step \in {2, 4}
     /\ hs' = [hs EXCEPT ![ex[th].tmp].c = TRUE]
     /\ StepTo(th, IF ex[th].step = 2 /\ TsRel(ex[th].i) /\ variant # "lose" THEN 3 ELSE 9)
-    /\ UNCHANGED <<mon, variant, scn, ready, timers, hl, fut, lp, q, fwake, go, idled, woken, own, busy>>
+    /\ UNCHANGED <<mon, variant, scn, ready, timers, hl, fut, lp, q, fwake, go, idled, woken, own, busy, pause>>
 
 \* self._loop.call_soon_threadsafe(cancel_handle)
 DispMarshal(th) ==
     /\ MayRun(th) /\ ex[th].op = "disp" /\ ex[th].step = 10
     /\ hs' = Append(hs, H("cx", ex[th].i, 0)) /\ ready' = Append(ready, NextH)
     /\ fut' = [fut EXCEPT ![ex[th].i] = "wait"] /\ StepTo(th, 12)
-    /\ UNCHANGED <<mon, variant, scn, timers, hl, lp, q, fwake, go, idled, woken, own, busy>>
+    /\ UNCHANGED <<mon, variant, scn, timers, hl, lp, q, fwake, go, idled, woken, own, busy, pause>>
 
 \* future.result()
 DispAwait(th) ==
     /\ MayRun(th) /\ ex[th].op = "disp" /\ ex[th].step = 11 /\ fut[ex[th].i] = "set"
     /\ StepTo(th, 9)
-    /\ UNCHANGED <<mon, variant, scn, hs, ready, timers, hl, fut, lp, q, fwake, go, idled, woken, own, busy>>
+    /\ UNCHANGED <<mon, variant, scn, hs, ready, timers, hl, fut, lp, q, fwake, go, idled, woken, own, busy, pause>>
 
 \* fault "impatient": future.result(timeout=1) with the timeout swallowed - dispose() returns although the loop
 \* has not processed the cancellation (the deadline was noted in tmp when the wait began)
@@ -353,18 +380,18 @@ DispGiveUp(th) ==
     /\ variant = "impatient"
     /\ MayRun(th) /\ ex[th].op = "disp" /\ ex[th].step = 11 /\ now >= ex[th].tmp
     /\ StepTo(th, 9)
-    /\ UNCHANGED <<mon, variant, scn, hs, ready, timers, hl, fut, lp, q, fwake, go, idled, woken, own, busy>>
+    /\ UNCHANGED <<mon, variant, scn, hs, ready, timers, hl, fut, lp, q, fwake, go, idled, woken, own, busy, pause>>
 
 DispRet(th) ==
     /\ MayRun(th) /\ ex[th].op = "disp" /\ ex[th].step = 9
     /\ MDispRet(ex[th].i, now) /\ SetEx(th, NoOp)
-    /\ UNCHANGED <<variant, scn, hs, ready, timers, hl, fut, lp, q, fwake, go, idled, woken, own, busy>>
+    /\ UNCHANGED <<variant, scn, hs, ready, timers, hl, fut, lp, q, fwake, go, idled, woken, own, busy, pause>>
 
 \* cancel_handle on the loop: future.set_result(0)
 CancelDone(th) ==
     /\ MayRun(th) /\ ex[th].op = "cxl" /\ ex[th].step = 9
     /\ fut' = [fut EXCEPT ![ex[th].i] = "set"] /\ SetEx(th, NoOp)
-    /\ UNCHANGED <<mon, variant, scn, hs, ready, timers, hl, lp, q, fwake, go, idled, woken, own, busy>>
+    /\ UNCHANGED <<mon, variant, scn, hs, ready, timers, hl, lp, q, fwake, go, idled, woken, own, busy, pause>>
 
 \* the scenario's way of disposing on the loop thread: post a callback that calls dispose()
 \* (a foreign thread with call_soon_threadsafe - append, then Wake; the loop thread with call_soon / call_later)
@@ -375,14 +402,14 @@ PostDispose(th) ==
        THEN hs' = Append(hs, H("dl", i, now + w)) /\ timers' = timers \cup {NextH} /\ UNCHANGED ready
        ELSE hs' = Append(hs, H("dl", i, 0)) /\ ready' = Append(ready, NextH) /\ UNCHANGED timers
     /\ IF th = LT THEN SetEx(th, NoOp) ELSE StepTo(th, 1)
-    /\ UNCHANGED <<mon, variant, scn, hl, fut, lp, q, fwake, go, idled, woken, own, busy>>
+    /\ UNCHANGED <<mon, variant, scn, hl, fut, lp, q, fwake, go, idled, woken, own, busy, pause>>
 
 (* ---- callbacks that exist only on the loop ------------------------------------------------------ *)
 \* interval(): invoke_action
 RunInterval ==
     /\ lp.pc = "cb" /\ ex[LT].op = "iv"
     /\ MStart(ex[LT].i, LT, now) /\ SetEx(LT, NoOp)
-    /\ UNCHANGED <<variant, scn, hs, ready, timers, hl, fut, lp, q, fwake, go, idled, woken, own, busy>>
+    /\ UNCHANGED <<variant, scn, hs, ready, timers, hl, fut, lp, q, fwake, go, idled, woken, own, busy, pause>>
 
 \* stage2(), first half: self._loop.call_later(seconds, interval)
 Stage2Timer ==
@@ -390,13 +417,13 @@ Stage2Timer ==
     /\ IF variant = "lose" THEN UNCHANGED <<hs, timers>> /\ SetEx(LT, NoOp)
        ELSE /\ hs' = Append(hs, H("iv", ex[LT].i, now + scn[ex[LT].i].d)) /\ timers' = timers \cup {NextH}
             /\ ex' = [ex EXCEPT ![LT].step = 1, ![LT].tmp = NextH]
-    /\ UNCHANGED <<mon, variant, scn, ready, hl, fut, lp, q, fwake, go, idled, woken, own, busy>>
+    /\ UNCHANGED <<mon, variant, scn, ready, hl, fut, lp, q, fwake, go, idled, woken, own, busy, pause>>
 
 \* stage2(), second half: handle.append(...)
 Stage2Assign ==
     /\ lp.pc = "cb" /\ ex[LT].op = "s2" /\ ex[LT].step = 1
     /\ hl' = [hl EXCEPT ![ex[LT].i] = Append(@, ex[LT].tmp)] /\ SetEx(LT, NoOp)
-    /\ UNCHANGED <<mon, variant, scn, hs, ready, timers, fut, lp, q, fwake, go, idled, woken, own, busy>>
+    /\ UNCHANGED <<mon, variant, scn, hs, ready, timers, fut, lp, q, fwake, go, idled, woken, own, busy, pause>>
 
 (* ---- the loop thread: run_forever / _run_once ----------------------------------------------------- *)
 DueBound == IF variant = "early" THEN now + 1 ELSE now
@@ -412,14 +439,14 @@ LoopStart ==
     /\ lp.pc = "off" /\ go
     /\ lp' = [lp EXCEPT !.pc = "top"]
     /\ MLoopStart(LT, now)
-    /\ UNCHANGED <<variant, scn, hs, ready, timers, hl, fut, q, ex, fwake, go, idled, woken, own, busy>>
+    /\ UNCHANGED <<variant, scn, hs, ready, timers, hl, fut, q, ex, fwake, go, idled, woken, own, busy, pause>>
 
 \* top of _run_once with nothing ready and no timer due: the loop blocks in select()
 Poll ==
     /\ lp.pc = "top" /\ ready = <<>> /\ Due \ HeadCancelled = {}
     /\ lp' = [lp EXCEPT !.pc = "sel"]
     /\ timers' = timers \ HeadCancelled
-    /\ UNCHANGED <<mon, variant, scn, hs, ready, hl, fut, q, ex, fwake, go, idled, woken, own, busy>>
+    /\ UNCHANGED <<mon, variant, scn, hs, ready, hl, fut, q, ex, fwake, go, idled, woken, own, busy, pause>>
 
 \* one iteration: select() returns at once (something is ready), or it was woken through the self-pipe, or a timer
 \* is due; the self-pipe is drained; due timers join the ready queue; ntodo = len(ready)
@@ -431,38 +458,48 @@ RunOnce ==
        /\ ready' = ready \o Ordered(due) /\ timers' = (timers \ drop) \ due
        /\ lp' = [lp EXCEPT !.pc = "iter", !.todo = Len(ready) + Cardinality(due)]
     /\ idled' = 0 /\ woken' = FALSE
-    /\ UNCHANGED <<mon, variant, scn, hs, hl, fut, q, ex, fwake, go, own, busy>>
+    /\ UNCHANGED <<mon, variant, scn, hs, hl, fut, q, ex, fwake, go, own, busy, pause>>
 
 \* handle = ready.popleft(); if handle._cancelled: continue
 Pop ==
     /\ lp.pc = "iter" /\ lp.todo > 0
     /\ ready' = Tail(ready)
     /\ lp' = IF hs[Head(ready)].c THEN [lp EXCEPT !.todo = @ - 1]
-             ELSE [pc |-> "enter", h |-> Head(ready), todo |-> lp.todo - 1]
-    /\ UNCHANGED <<mon, variant, scn, hs, timers, hl, fut, q, ex, fwake, go, idled, woken, own, busy>>
+             ELSE [lp EXCEPT !.pc = "enter", !.h = Head(ready), !.todo = @ - 1]
+    /\ UNCHANGED <<mon, variant, scn, hs, timers, hl, fut, q, ex, fwake, go, idled, woken, own, busy, pause>>
 
 IterEnd ==
-    /\ lp.pc = "iter" /\ lp.todo = 0
+    /\ lp.pc = "iter" /\ lp.todo = 0 /\ ~lp.stop
     /\ lp' = [lp EXCEPT !.pc = "top"]
-    /\ UNCHANGED <<mon, variant, scn, hs, ready, timers, hl, fut, q, ex, fwake, go, idled, woken, own, busy>>
+    /\ UNCHANGED <<mon, variant, scn, hs, ready, timers, hl, fut, q, ex, fwake, go, idled, woken, own, busy, pause>>
 
 \* handle._run(): the callback is read now (a cancel() in between has cleared it: nothing runs)
 Enter ==
     /\ lp.pc = "enter"
     /\ LET h == hs[lp.h] IN
        IF h.c THEN lp' = [lp EXCEPT !.pc = "iter"] /\ UNCHANGED <<q, ex>>
-       ELSE /\ lp' = [lp EXCEPT !.pc = "cb"]
-            /\ CASE h.k = "drv" -> q' = [q EXCEPT ![LT] = LScript(scn, busy)] /\ UNCHANGED ex
+       ELSE /\ lp' = [lp EXCEPT !.pc = "cb", !.stop = (@ \/ h.k = "stp")]          \* loop.stop(): _stopping = True
+            /\ CASE h.k = "stp" -> UNCHANGED <<q, ex>>
+                 [] h.k = "drv" -> q' = [q EXCEPT ![LT] = LScript(scn, busy)] /\ UNCHANGED ex
                  [] h.k = "iv"  -> SetEx(LT, [op |-> "iv", i |-> h.i, step |-> 0, tmp |-> 0]) /\ UNCHANGED q
                  [] h.k = "s2"  -> SetEx(LT, [op |-> "s2", i |-> h.i, step |-> 0, tmp |-> 0]) /\ UNCHANGED q
                  [] h.k = "cx"  -> SetEx(LT, [op |-> "cxl", i |-> h.i, step |-> 1, tmp |-> 0]) /\ UNCHANGED q
                  [] h.k = "dl"  -> SetEx(LT, [op |-> "disp", i |-> h.i, step |-> 0, tmp |-> 0]) /\ UNCHANGED q
-    /\ UNCHANGED <<mon, variant, scn, hs, ready, timers, hl, fut, fwake, go, idled, woken, own, busy>>
+    /\ UNCHANGED <<mon, variant, scn, hs, ready, timers, hl, fut, fwake, go, idled, woken, own, busy, pause>>
 
 CbEnd ==
     /\ lp.pc = "cb" /\ ~Busy(LT) /\ q[LT] = <<>> /\ now >= fwake[LT]
     /\ lp' = [lp EXCEPT !.pc = "iter"]
-    /\ UNCHANGED <<mon, variant, scn, hs, ready, timers, hl, fut, q, ex, fwake, go, idled, woken, own, busy>>
+    /\ UNCHANGED <<mon, variant, scn, hs, ready, timers, hl, fut, q, ex, fwake, go, idled, woken, own, busy, pause>>
+
+\* run_forever: the iteration in which loop.stop() was called is completed, then the loop stops - with whatever is
+\* still in the ready queue and the timer heap; it can be run again (LoopStart)
+LoopPause ==
+    /\ lp.pc = "iter" /\ lp.todo = 0 /\ lp.stop
+    /\ lp' = [lp EXCEPT !.pc = "off", !.stop = FALSE]
+    /\ go' = FALSE
+    /\ MLoopStop(LT, now)
+    /\ UNCHANGED <<variant, scn, hs, ready, timers, hl, fut, q, ex, fwake, idled, woken, own, busy, pause>>
 
 FDone == \A f \in Foreign : q[f] = <<>> /\ ~Busy(f)
 Asleep == lp.pc = "sel" /\ ~woken /\ Due = {}
@@ -471,21 +508,21 @@ Asleep == lp.pc = "sel" /\ ~woken /\ Due = {}
 LoopIdle ==
     /\ Asleep /\ timers = {} /\ idled = 0 /\ ready = <<>>
     /\ MIdle(LT, now) /\ idled' = 1
-    /\ UNCHANGED <<variant, scn, hs, ready, timers, hl, fut, lp, q, ex, fwake, go, woken, own, busy>>
+    /\ UNCHANGED <<variant, scn, hs, ready, timers, hl, fut, lp, q, ex, fwake, go, woken, own, busy, pause>>
 
 \* handles are in the ready queue but nobody woke the selector, and nobody is left who could: for the property this
 \* is an idle loop as well (reported once, when every other thread has finished)
 LoopAsleepWithWork ==
     /\ Asleep /\ timers = {} /\ idled \in {0, 1} /\ FDone /\ ready # <<>>
     /\ MIdle(LT, now) /\ idled' = 2
-    /\ UNCHANGED <<variant, scn, hs, ready, timers, hl, fut, lp, q, ex, fwake, go, woken, own, busy>>
+    /\ UNCHANGED <<variant, scn, hs, ready, timers, hl, fut, lp, q, ex, fwake, go, woken, own, busy, pause>>
 
 \* the harness stops the loop at quiescence (asleep, no timer, every other thread finished)
 LoopStop ==
     /\ Asleep /\ timers = {} /\ FDone /\ (IF ready = <<>> THEN idled = 1 ELSE idled = 2)
     /\ lp' = [lp EXCEPT !.pc = "end"]
     /\ MLoopStop(LT, now)
-    /\ UNCHANGED <<variant, scn, hs, ready, timers, hl, fut, q, ex, fwake, go, idled, woken, own, busy>>
+    /\ UNCHANGED <<variant, scn, hs, ready, timers, hl, fut, q, ex, fwake, go, idled, woken, own, busy, pause>>
 
 \* Time passes only while nobody can run on it: the loop thread is outside an iteration or asleep inside a callback.
 \* Discrete-event rule (that of the controlled clock): the clock JUMPS to the earliest instant somebody waits for.
@@ -502,18 +539,18 @@ AllDone == lp.pc = "end" /\ FDone
 Finished == AllDone /\ UNCHANGED vars
 
 ThreadStep(th) == \/ NextOp(th) \/ SchedCall(th) \/ SchedInline(th) \/ SchedEnqueue(th) \/ SchedAssign(th) \/ SchedRet(th)
-                  \/ DispCall(th) \/ CancelPop(th) \/ CancelSet(th) \/ DispMarshal(th) \/ DispAwait(th) \/ DispGiveUp(th) \/ DispRet(th)
+                  \/ DispCall(th) \/ CancelFirstOnly(th) \/ CancelPop(th) \/ CancelSet(th) \/ DispMarshal(th) \/ DispAwait(th) \/ DispGiveUp(th) \/ DispRet(th)
                   \/ CancelDone(th) \/ PostDispose(th) \/ Wake(th)
 
 Next == \/ \E th \in Threads : ThreadStep(th)
         \/ RunInterval \/ Stage2Timer \/ Stage2Assign
-        \/ LoopStart \/ Poll \/ RunOnce \/ Pop \/ IterEnd \/ Enter \/ CbEnd \/ LoopIdle \/ LoopAsleepWithWork \/ LoopStop
+        \/ LoopStart \/ Poll \/ RunOnce \/ Pop \/ IterEnd \/ Enter \/ CbEnd \/ LoopIdle \/ LoopAsleepWithWork \/ LoopStop \/ LoopPause
         \/ Tick \/ Finished
 
 (* ---- model-level sanity --------------------------------------------------------------------------- *)
-TypeOK == /\ loopTh \in {NoTh, LT} /\ gen \in 0..2 /\ now \in 0..40
+TypeOK == /\ loopTh \in {NoTh, LT} /\ gen \in 0..4 /\ now \in 0..40
           /\ lp.pc \in {"off", "top", "sel", "iter", "enter", "cb", "end"} /\ idled \in 0..2 /\ woken \in BOOLEAN
-          /\ \A h \in 1..Len(hs) : hs[h].k \in {"drv", "iv", "s2", "cx", "dl"}
+          /\ \A h \in 1..Len(hs) : hs[h].k \in {"drv", "iv", "s2", "cx", "dl", "stp"}
           /\ timers \subseteq 1..Len(hs)
 \* a future that somebody waits for is eventually set: no behaviour gets stuck (CHECK_DEADLOCK TRUE + Finished)
 \* at the end every disposed item whose dispose was covered and returned before a start did not start;
@@ -527,5 +564,6 @@ EndOK == AllDone => \A i \in Items : ((it[i].ss = "ret" /\ it[i].ds = "none") =>
 
 (* ---- export of the scenario family (Binding A half: the scenarios the replayer performs) ----------- *)
 NoNext == FALSE /\ UNCHANGED vars
-ExportScn == PrintT(ToJson([scn |-> scn, f |-> [t \in Foreign |-> Script(scn, t)], l |-> LScript(scn, busy), own |-> own, busy |-> busy]))
+ExportScn == PrintT(ToJson([scn |-> scn, f |-> [t \in Foreign |-> Script(scn, t)], l |-> LScript(scn, busy), own |-> own, busy |-> busy,
+                            pause |-> pause]))
 ================================================================================
